@@ -25,6 +25,7 @@ import PandoraModel.Properties.C13CbcaFlip
 import PandoraModel.Properties.C13RunCbca
 import PandoraModel.Properties.C13RunCbcaFlip
 import PandoraModel.Properties.C13RunBool
+import PandoraModel.Properties.C13RunMemo
 open Pandora.C13
 #print axioms Local.comp
 #print axioms Local.pair
@@ -279,3 +280,9 @@ open Pandora.C13
 #print axioms run_crop_eq_whole_of_B
 #print axioms afterTail_tailOf
 #print axioms extRunR_left_flag
+#print axioms refine_readsInside
+#print axioms median_readsInside
+#print axioms bilateral_readsInside
+#print axioms afterTailMemo_eqIn
+#print axioms extRunMemo_eq
+#print axioms tailOf_readsInside
